@@ -634,8 +634,9 @@ func runC17(r *Run, replay *Case) {
 	postModel["C17"] = func(c *Case, m any) any {
 		return m
 	}
-	if replay != nil && replay.Input["stream"] == "root-pop" {
+	if replay != nil && (replay.Input["stream"] == "root-pop" || replay.Input["stream"] == "env-after-change") {
 		c17RootPop(r)
+		c17EnvAfterChange(r)
 		return
 	}
 	if replay != nil {
@@ -651,6 +652,7 @@ func runC17(r *Run, replay *Case) {
 		return
 	}
 	c17RootPop(r)
+	c17EnvAfterChange(r)
 	r.Res.Rule = "op sequences over {push(nil|map), pop, set, lookup, resolve, envmap, copy, foreach, depth} on roots of every shape (nil, map, struct, pointer-to-struct); " +
 		"exhaustive for sequences <= 4 over {push,pop,set a,set b,lookup a,lookup b} then random up to 14 ops; paths = top-level name x up to 3 steps over every container kind; " +
 		"non-trivial = at least one read op returns a found value; distinct by (root type, op/argument sequence)"
@@ -885,5 +887,81 @@ func c17RootPop(r *Run) {
 			}
 			r.Add(c)
 		}
+	}
+}
+
+type c17Page struct {
+	Title string `json:"title"`
+	Views int
+}
+
+// c17EnvAfterChange: "the merged environment agrees with lookup for every name" at EVERY point of a history, not only at the first
+// call: EnvMap (also through Copy) is asked, then the bindings change - Set in the root scope, the root scope popped, the root data value
+// (a pointer to a struct, a typed map) modified by its owner - and EnvMap is asked again: every name Lookup finds is in it, with Lookup's value.
+func c17EnvAfterChange(r *Run) {
+	agree := func(st *vuego.Stack, names []string) string {
+		env := st.EnvMap()
+		for _, n := range names {
+			lv, lok := st.Lookup(n)
+			ev, eok := env[n]
+			if lok != eok || (lok && fmt.Sprint(lv) != fmt.Sprint(ev)) {
+				return fmt.Sprintf("name %q: Lookup gives %v (present=%v), EnvMap gives %v (present=%v)", n, lv, lok, ev, eok)
+			}
+		}
+		return ""
+	}
+	type step struct {
+		name string
+		run  func() (*vuego.Stack, []string)
+	}
+	steps := []step{
+		{"set-in-root-then-pop", func() (*vuego.Stack, []string) {
+			m := map[string]any{"a": 1}
+			st := vuego.NewStackWithData(m, m)
+			_ = st.EnvMap()
+			st.Set("b", 2)
+			st.Pop()
+			return st, []string{"a", "b"}
+		}},
+		{"copy-then-set-in-root-then-pop", func() (*vuego.Stack, []string) {
+			m := map[string]any{"a": 1}
+			st := vuego.NewStackWithData(m, m)
+			_ = st.Copy()
+			st.Set("b", 2)
+			st.Set("a", 3)
+			st.Pop()
+			return st, []string{"a", "b"}
+		}},
+		{"pointer-root-modified", func() (*vuego.Stack, []string) {
+			p := &c17Page{Title: "first", Views: 1}
+			st := vuego.NewStackWithData(nil, p)
+			_ = st.EnvMap()
+			p.Title, p.Views = "second", 2
+			return st, []string{"title", "Title", "Views"}
+		}},
+		{"typed-map-root-modified", func() (*vuego.Stack, []string) {
+			m := map[string]string{"lang": "en"}
+			st := vuego.NewStackWithData(nil, m)
+			_ = st.EnvMap()
+			m["lang"], m["theme"] = "sl", "dark"
+			return st, []string{"lang", "theme"}
+		}},
+		{"push-set-envmap-pop", func() (*vuego.Stack, []string) {
+			m := map[string]any{"a": 1}
+			st := vuego.NewStackWithData(m, m)
+			st.Push(map[string]any{"a": 9, "t": 1})
+			_ = st.EnvMap()
+			st.Pop()
+			return st, []string{"a", "t"}
+		}},
+	}
+	for _, s := range steps {
+		st, names := s.run()
+		msg := agree(st, names)
+		c := &Case{Name: "env-after-change " + s.name, Key: "env-after-change " + s.name, Input: map[string]any{"stream": "env-after-change", "history": s.name}, Impl: map[string]any{"agrees": msg == ""}, Oracle: &Verdict{OK: true}, Tags: []string{"stream:env-after-change"}}
+		if msg != "" {
+			c.Oracle = &Verdict{OK: false, Class: "envmap-vs-lookup:after-change:" + s.name, Detail: msg}
+		}
+		r.Add(c)
 	}
 }
